@@ -172,13 +172,13 @@ Step(S, e) ==
             taskBad ==
               IF f \notin DOMAIN S.ts THEN {} ELSE
               LET T == S.ts[f] IN
-              IfBad(T.thrown # 0 => (IsX(e.v) /\ e.u = T.thrown), "C02.prop") \cup
+              IfBad((T.thrown # 0 /\ NoFaultyCtx(P)) => (IsX(e.v) /\ e.u = T.thrown), "C02.prop") \cup
               (IF S.ref # <<>> THEN IfBad(e.v = S.ref[f], "C01.done") ELSE {}) \cup
               \* every context the task entered has been left, ending with a pause
               IfBad(\A c \in DOMAIN S.ctx : S.ctx[c].owner = f /\ S.ctx[c].ty # "nonasync" /\ NoFaultyCtx(P)
                                             => S.ctx[c].st = "closed", "C06.alt.end") \cup
               \* a NonAsyncContext fails the task only if it had to be suspended for a flush inside it
-              IfBad(e.v = VX(70000) => (T.st = "waiting" /\ f \in Blocked(S) /\
+              IfBad((e.v = VX(70000) /\ \A g \in DOMAIN S.fut : S.fut[g].u # e.u) => (T.st = "waiting" /\ f \in Blocked(S) /\
                                         \E c \in DOMAIN S.ctx : S.ctx[c].owner = f /\ S.ctx[c].ty = "nonasync"),
                     "C06.nonasync.only")
             itemBad ==
